@@ -20,14 +20,18 @@ UUID_RE = re.compile(rb"[0-9a-fA-F]{8}-[0-9a-fA-F]{4}-[0-9a-fA-F]{4}-[0-9a-fA-F]
 OWNED = {
     "python": lambda out, test: [os.path.join(out, "lsprotocol", "types.py")],
     "rust": lambda out, test: [os.path.join(out, "lsprotocol", "src", "lib.rs"), os.path.join(test, "src", "main.rs")],
-    "dotnet": lambda out, test: sorted(glob.glob(os.path.join(out, "lsprotocol", "*.cs"))),
-    "testdata": lambda out, test: sorted(glob.glob(os.path.join(out, "*.json"))),
+    "dotnet": lambda out, test: sorted(glob.glob(os.path.join(glob.escape(out), "lsprotocol", "*.cs"))),
+    "testdata": lambda out, test: sorted(glob.glob(os.path.join(glob.escape(out), "*.json"))),
 }
 STALE = {
     "python": lambda out, test: [(os.path.join(out, "lsprotocol", "types.py"), "# stale content\nx = 1\n")],
     "rust": lambda out, test: [(os.path.join(out, "lsprotocol", "src", "lib.rs"), "// stale content\n")],
-    "dotnet": lambda out, test: [(os.path.join(out, "lsprotocol", "ZzVerifStale.cs"), "// stale\n")],
-    "testdata": lambda out, test: [(os.path.join(out, "VerifStale-True-0000.json"), "{}")],
+    "dotnet": lambda out, test: [(os.path.join(out, "lsprotocol", "ZzVerifStale.cs"), "// stale\n"), (os.path.join(out, "lsprotocol", "Zz_Verif2Stale.cs"), "// stale\n")],
+    # names shaped like real vectors of an earlier model (letters only, with a digit, with an underscore), and an odd one
+    "testdata": lambda out, test: [(os.path.join(out, "VerifStale-True-0000.json"), "{}"),
+                                   (os.path.join(out, "VerifStaleRequest-True-" + "0" * 64 + ".json"), "{}"),
+                                   (os.path.join(out, "Verif2StaleNotification-False-" + "a" * 64 + ".json"), "{}"),
+                                   (os.path.join(out, "Verif_StaleResponse-True-" + "b" * 64 + ".json"), "{}")],
 }
 
 
@@ -138,7 +142,8 @@ def snapshot(plugin, out, test):
     uuid = False
     for f in files:
         data = open(f, "rb").read()
-        h.update(os.path.relpath(f, os.path.dirname(out)).encode())
+        # (named relative to the output / test directory it is in: what the directories are called is not output)
+        h.update((("test/" + os.path.relpath(f, test)) if f.startswith(test + os.sep) else ("out/" + os.path.relpath(f, out))).encode())
         h.update(hashlib.sha256(data).digest())
         if UUID_RE.search(data):
             uuid = True
@@ -211,7 +216,8 @@ class Interpreter:
 def run_history(args):
     plugin, hist, models, work, idx, seed = args
     base = os.path.join(work, "h%d" % idx)
-    out, test = os.path.join(base, "out"), os.path.join(base, "test")
+    # every second history lives in directories whose names carry glob metacharacters and a space
+    out, test = (os.path.join(base, "out"), os.path.join(base, "test")) if idx % 2 == 0 else (os.path.join(base, "out [v1] x*"), os.path.join(base, "test [v1]"))
     os.makedirs(out)
     shutil.copytree(os.path.join(common.REPO, "tests", "rust"), test, ignore=shutil.ignore_patterns("target"))
     events = []
@@ -469,6 +475,35 @@ def check_c05(tier):
                 c, cl = rust_items(os.path.join(common.REPO, "packages", "rust", "lsprotocol", "src", "lib.rs"), work, "committed")
             events.append({"e": "FixedPoint", "plugin": plugin, "interpreter": "-O" if extra else "plain", "gen": g, "committed": c})
             labels.append((gl, cl))
+        # should the command line accept several plugins in ONE run (one process, one model object for all of them), that
+        # way of running "the generator's python and rust plugins" must reproduce the committed files just the same
+        for order in (("python", "rust"), ("rust", "python")):
+            tag = "combined-" + "-".join(order)
+            out, test = os.path.join(work, tag + "-out"), os.path.join(work, tag + "-test")
+            os.makedirs(out)
+            shutil.copytree(os.path.join(common.REPO, "tests", "rust"), test, ignore=shutil.ignore_patterns("target"))
+            env = dict(os.environ, PYTHONPATH=common.REPO, PYTHONHASHSEED=str(common.seed()))
+            p = subprocess.run([common.PY, "-m", "generator", "--plugin"] + list(order) + ["--output-dir", out, "--test-dir", test],
+                               cwd=common.REPO, env=env, stdout=subprocess.PIPE, stderr=subprocess.STDOUT, timeout=900)
+            if p.returncode != 0:
+                continue                              # the command line takes one plugin per run (as in the pinned tree)
+            found = {"python": None, "rust": None}
+            for d, _, files in os.walk(out):
+                if "types.py" in files and d.endswith("lsprotocol"):
+                    found["python"] = os.path.join(d, "types.py")
+                if "lib.rs" in files:
+                    found["rust"] = os.path.join(d, "lib.rs")
+            for plugin in order:
+                if not found[plugin]:
+                    continue
+                if plugin == "python":
+                    g, gl = py_items(found[plugin])
+                    c, cl = py_items(os.path.join(common.REPO, "packages", "python", "lsprotocol", "types.py"))
+                else:
+                    g, gl = rust_items(found[plugin], work, "gen" + tag)
+                    c, cl = rust_items(os.path.join(common.REPO, "packages", "rust", "lsprotocol", "src", "lib.rs"), work, "committed")
+                events.append({"e": "FixedPoint", "plugin": plugin, "interpreter": "one run: --plugin " + " ".join(order), "gen": g, "committed": c})
+                labels.append((gl, cl))
         tp = os.path.join(work, "trace.json")
         json.dump([events], open(tp, "w"))
         rc, out = common.run_tlc("GenPipeline", "CONSTANTS MaxLen = 0 NoCleanup = FALSE LastOnly = FALSE NEvents = %d\nINIT TInit\nNEXT TStep\nPOSTCONDITION AllConsumed\nCHECK_DEADLOCK FALSE\n" % len(events),
